@@ -243,7 +243,8 @@ def writer_states(calls, split):
 
 
 def _worker(item):
-    first, depth, ai, seed = item
+    first, depth, ai, seed = item[:4]
+    sub = item[4] if len(item) > 4 else None     # restricted alphabet (shape indices) for the deeper quick-tier tree
     shapes = W.call_shapes()
     assign = W.assignments()[ai]
     res = {'counters': {'programs': 0, 'nontrivial': 0, 'multi_session': 0}, 'outcomes': {}, 'violations': [], 'samples': [], 'distinct': set()}
@@ -273,10 +274,14 @@ def _worker(item):
             if not res['samples'] and len(seq) == depth and oc == 'equal' and split:
                 res['samples'].append({'calls': calls, 'kinds': list(assign), 'split': split, 'version': version, 'dest': dest})
         if len(seq) < depth:
-            for i in range(len(shapes)):
+            for i in (sub if sub is not None else range(len(shapes))):
                 rec(seq + [i])
     rec([first])
     return res
+
+
+# call shapes that differ in channel order / channel set / block length / reused instances: explored to depth 3 in every tier
+ORDER_SUB = [4, 7, 8, 12, 14, 17, 23, 26]
 
 
 def run(ctx):
@@ -288,6 +293,8 @@ def run(ctx):
     items = [(f, 2, ai, ctx.seed) for ai in range(nassign) for f in range(len(shapes))]
     if depth >= 3:
         items = [it for it in items if it[2] % 3] + [(f, 3, ai, ctx.seed) for ai in range(0, nassign, 3) for f in range(len(shapes))]
+    else:
+        items += [(f, 3, ai, ctx.seed, ORDER_SUB) for ai in range(0, nassign, 4) for f in ORDER_SUB]
     m = merge(ctx.map(_worker, items, chunksize=2) + ctx.map(_copy_worker, [(ai, ctx.seed) for ai in range(nassign)]))
     c = m['counters']
     vac = []
